@@ -5,15 +5,48 @@ Import ListNotations.
 Open Scope Z_scope.
 
 (* ---------- association lists ---------- *)
+Lemma tk_eqb_refl : forall k, tk_eqb k k = true.
+Proof. intros [a b]; unfold tk_eqb; cbn; now rewrite !Z.eqb_refl. Qed.
+
+Lemma tk_eqb_eq : forall a b, tk_eqb a b = true <-> a = b.
+Proof.
+  intros [a1 a2] [b1 b2]; unfold tk_eqb; cbn; split.
+  - intro H; apply andb_true_iff in H as [H1 H2]; apply Z.eqb_eq in H1, H2; now subst.
+  - intro H; inversion H; subst; now rewrite !Z.eqb_refl.
+Qed.
+
+Lemma tk_eqb_neq : forall a b, a <> b -> tk_eqb a b = false.
+Proof. intros a b H; destruct (tk_eqb a b) eqn:E; auto; apply tk_eqb_eq in E; contradiction. Qed.
+
 Lemma rk_eqb_refl : forall k, rk_eqb k k = true.
-Proof. intros [a b]; unfold rk_eqb; cbn; now rewrite !Z.eqb_refl. Qed.
+Proof. intros [a b]; unfold rk_eqb; cbn; now rewrite Z.eqb_refl, tk_eqb_refl. Qed.
 
 Lemma rk_eqb_eq : forall a b, rk_eqb a b = true <-> a = b.
 Proof.
   intros [a1 a2] [b1 b2]; unfold rk_eqb; cbn; split.
-  - intro H; apply andb_true_iff in H as [H1 H2]; apply Z.eqb_eq in H1, H2; now subst.
-  - intro H; inversion H; subst; now rewrite !Z.eqb_refl.
+  - intro H; apply andb_true_iff in H as [H1 H2]; apply Z.eqb_eq in H1; apply tk_eqb_eq in H2; now subst.
+  - intro H; inversion H; subst; now rewrite Z.eqb_refl, tk_eqb_refl.
 Qed.
+
+Lemma tget_tdel_same : forall A (m : list (tkt * A)) k, tget (tdel m k) k = None.
+Proof.
+  induction m as [|[k' v] m IH]; intros k; cbn; auto.
+  destruct (tk_eqb k k') eqn:E; auto. cbn. now rewrite E.
+Qed.
+
+Lemma tget_tdel_other : forall A (m : list (tkt * A)) k k', k' <> k -> tget (tdel m k) k' = tget m k'.
+Proof.
+  induction m as [|[k0 v] m IH]; intros k k' H; cbn; auto.
+  destruct (tk_eqb k k0) eqn:E.
+  - apply tk_eqb_eq in E; subst k0. rewrite (tk_eqb_neq k' k H). now apply IH.
+  - cbn. destruct (tk_eqb k' k0); auto.
+Qed.
+
+Lemma tget_tset_same : forall A (m : list (tkt * A)) k v, tget (tset m k v) k = Some v.
+Proof. intros; unfold tset; cbn; now rewrite tk_eqb_refl. Qed.
+
+Lemma tget_tset_other : forall A (m : list (tkt * A)) k v k', k' <> k -> tget (tset m k v) k' = tget m k'.
+Proof. intros; unfold tset; cbn; rewrite (tk_eqb_neq k' k H); now apply tget_tdel_other. Qed.
 
 Lemma rk_eqb_neq : forall a b, a <> b -> rk_eqb a b = false.
 Proof. intros a b H; destruct (rk_eqb a b) eqn:E; auto; apply rk_eqb_eq in E; contradiction. Qed.
@@ -130,7 +163,7 @@ Proof.
 Qed.
 
 (* ---------- SetVersion: only the version moves, never backwards, at most to the requested one ---------- *)
-Definition setversion_post (reps reps' : list (rkey * replica)) (ts tk nv c : Z) : Prop :=
+Definition setversion_post (reps reps' : list (rkey * replica)) (ts : Z) (tk : tkt) (nv c : Z) : Prop :=
   (forall k', k' <> (ts, tk) -> rget reps' k' = rget reps k') /\
   (rget reps (ts, tk) = None -> rget reps' (ts, tk) = None) /\
   (forall r, rget reps (ts, tk) = Some r ->
@@ -175,16 +208,16 @@ Qed.
 Lemma change_tract_ok_inv : forall st term blob tract ver hosts st',
   change_tract st term blob tract ver hosts = (st', cl_NoError) ->
   term = s_term st /\
-  exists dv hs, zget (s_dtr st) (tkey blob tract) = Some (dv, hs) /\ ver = dv + 1 /\
+  exists dv hs, tget (s_dtr st) (tkey blob tract) = Some (dv, hs) /\ ver = dv + 1 /\
                 length hs = length hosts /\
-                s_dtr st' = zset (s_dtr st) (tkey blob tract) (ver, hosts) /\ s_term st' = s_term st /\ s_reps st' = s_reps st.
+                s_dtr st' = tset (s_dtr st) (tkey blob tract) (ver, hosts) /\ s_term st' = s_term st /\ s_reps st' = s_reps st.
 Proof.
   intros st term blob tract ver hosts st' H. unfold change_tract in H.
   destruct (term =? s_term st) eqn:T; cbn in H; [|exfalso; solve [inversion H]].
   apply Z.eqb_eq in T. split; auto.
   destruct (zget (s_blobs st) blob) as [[repl nt]|]; [|exfalso; solve [inversion H]].
   destruct (nt <? tract); [exfalso; solve [inversion H]|].
-  destruct (zget (s_dtr st) (tkey blob tract)) as [[dv hs]|]; [|exfalso; solve [inversion H]].
+  destruct (tget (s_dtr st) (tkey blob tract)) as [[dv hs]|]; [|exfalso; solve [inversion H]].
   destruct (Z.of_nat (length hs) =? Z.of_nat (length hosts)) eqn:L; cbn in H; [|exfalso; solve [inversion H]].
   destruct (dv + 1 =? ver) eqn:V; cbn in H; [|exfalso; solve [inversion H]].
   inversion H; subst; clear H. apply Z.eqb_eq in L, V. exists dv, hs. repeat split; auto; lia.
@@ -201,7 +234,7 @@ Proof.
   intros st term blob tract ver hosts st' term2 hosts2 st2 c H1 H2 Hc; subst c.
   apply change_tract_ok_inv in H1 as (_ & dv & hs & G & V & _ & D & _).
   apply change_tract_ok_inv in H2 as (_ & dv2 & hs2 & G2 & V2 & _).
-  rewrite D, zget_zset_same in G2. inversion G2; subst. lia.
+  rewrite D, tget_tset_same in G2. inversion G2; subst. lia.
 Qed.
 
 (* a commit proposed under a stale term is rejected and changes nothing *)
